@@ -63,6 +63,11 @@ def build_doc(seed):
     seams.install(seed)
     w.execute(["doc", "D1"])
     gen._add_doc("D1")
+    if rng.random() < 0.04:
+        # a document without any record (with or without namespace declarations)
+        if rng.random() < 0.5:
+            w.execute(["add_ns", "D1", "ex", "http://ex.org/a/", 0])
+        return w.containers["D1"]
     # namespaces first so that every name lives under a document-level prefix
     for p, u in (("ex", "http://ex.org/a/"), ("o", "http://other.org/ns#")):
         w.execute(["add_ns", "D1", p, u, 0])
@@ -170,6 +175,9 @@ def run_state(seed, tier):
                         export(f)
                     with iosim.real_open(os.path.join(sb.root, "b." + fmt), "rb") as f:
                         dests["file-wb"] = f.read()
+                    # the path already holds something longer: the call must replace, not overlay
+                    with iosim.real_open(pth, "wb") as f:
+                        f.write(b"x" * (len(b0) * 2 + 1000))
                     export(pth)
                     with iosim.real_open(pth, "rb") as f:
                         dests["path"] = f.read()
